@@ -528,7 +528,9 @@ where
 
         let mut ancestor: FxHashMap<usize, Option<usize>> = FxHashMap::default();
         let mut label: FxHashMap<usize, usize> = FxHashMap::default();
-        for &vertex in self.vertices.keys() {
+        // Only vertices reachable from the root take part; unreachable
+        // vertices have no DFS number and no immediate dominator.
+        for &vertex in dfs_pre_order.iter() {
             ancestor.insert(vertex, None);
             label.insert(vertex, dfs_number[&vertex]);
         }
@@ -539,6 +541,10 @@ where
             let mut min_semi = usize::MAX;
 
             for &pred in &self.predecessors[&vertex] {
+                if !dfs_number.contains_key(&pred) {
+                    // predecessor is unreachable from the root
+                    continue;
+                }
                 if ancestor[&pred].is_some() {
                     compress(&mut ancestor, &mut label, pred);
                 }
